@@ -111,6 +111,7 @@ func init() {
 			{"body-write", "who may write Body.Elements and in which shape", ruleBodyWrite},
 			{"err-atomic", "failure returns precede all writes (Remove*)", ruleErrAtomicRemove},
 			{"sectpr-last", "shape of Body.MarshalXML", ruleSectPrLast},
+			{"no-element-cache", "no Document field other than Body points at body elements", ruleNoElementCache},
 		},
 		Assumptions: commonAssumptions,
 	}
@@ -123,6 +124,7 @@ func init() {
 			{"index-adeq", "guard row = use row", ruleIndexAdeq},
 			{"nil-guard", "Table.Grid dereferences are nil-guarded", ruleNilGuardGrid},
 			{"copy-cover/alias", "CopyTable is complete and alias-free", ruleCopyTable},
+			{"loop-fresh", "table elements inserted in a loop are constructed in that loop", ruleLoopFresh},
 		},
 		Assumptions: commonAssumptions,
 	}
